@@ -19,6 +19,8 @@ import (
 	"encoding/json"
 	"fmt"
 	"math/big"
+	"os"
+	"path/filepath"
 	"strconv"
 	"strings"
 	"time"
@@ -133,6 +135,29 @@ func parsePower(s string) uint64 {
 func (w *opsWorld) apply(op string) (r opResult) {
 	parts := strings.Split(op, ":")
 	var panicked string
+	if parts[0] == "tornkey" {
+		// tornkey:<n> - the server is stopped, what is left of an interrupted first registration is an n-byte
+		// gcaPubKey.dat, the server is started again (it must come up unregistered and be registrable for good)
+		if w.M.Registered {
+			r.Skipped = true
+			return
+		}
+		n, _ := strconv.Atoi(parts[1])
+		if err := w.Close(); err != nil {
+			r.Sig, r.Obs, r.Want = "restart-fails", "close: "+err.Error(), "close succeeds"
+			w.Poisoned = true
+			return
+		}
+		must(os.WriteFile(filepath.Join(w.Dir, "gcaPubKey.dat"), bytes.Repeat([]byte{0xAB}, n), 0644))
+		if err := w.start(); err != nil {
+			r.Sig, r.Obs, r.Want = "restart-fails", "start with a "+parts[1]+"-byte key file: "+err.Error(), "start succeeds"
+			w.Poisoned = true
+			return
+		}
+		w.M.restartVolatile()
+		w.followOffset(&r)
+		return
+	}
 	if parts[0] == "touch" {
 		w.touch(w.M) // requests whose answers might be remembered by the server
 		return
